@@ -15,6 +15,7 @@ use lightning_signer::invoice::Invoice;
 use lightning_signer::lightning::types::payment::PaymentSecret;
 use lightning_signer::lightning_invoice::{Currency, InvoiceBuilder};
 use lightning_signer::util::clock::Clock;
+use lightning_signer::util::velocity::{VelocityControlIntervalType, VelocityControlSpec};
 use proptest::prelude::*;
 use serde::{Deserialize, Serialize};
 use serde_json::json;
@@ -61,8 +62,15 @@ pub enum Op {
 pub struct Case {
     pub nchan: u8,
     pub anchors: bool,
+    /// 0 = unlimited payment velocity (the default policy); otherwise the node runs with a finite
+    /// global velocity limit of VEL_LIMIT_SAT[k-1] sat per day, so that some approvals are *declined*
+    /// (Ok(false)) and the ledger must not count them
+    #[serde(default)]
+    pub vel: u8,
     pub ops: Vec<Op>,
 }
+
+const VEL_LIMIT_SAT: [u64; 3] = [60_000, 150_000, 260_000];
 
 fn part_strat() -> impl Strategy<Value = PartAmt> {
     prop_oneof![
@@ -159,11 +167,20 @@ impl Prop for C06 {
     }
     fn strategy(&self, tier: Tier) -> BoxedStrategy<Case> {
         let n = tier.pick(45usize, 120usize);
-        (2u8..4, any::<bool>(), proptest::collection::vec(op_strat(), 1..n)).prop_map(|(nchan, anchors, ops)| Case { nchan, anchors, ops }).boxed()
+        let vel = prop_oneof![5 => Just(0u8), 1 => Just(1u8), 2 => Just(2u8), 1 => Just(3u8)];
+        (2u8..4, any::<bool>(), vel, proptest::collection::vec(op_strat(), 1..n)).prop_map(|(nchan, anchors, vel, ops)| Case { nchan, anchors, vel, ops }).boxed()
     }
 
     fn run(&self, case: &Case, st: &mut CaseStats, ctx: &Ctx) -> Result<(), Violation> {
-        let mut w = World::new(WorldCfg::default_testnet());
+        let mut cfg = WorldCfg::default_testnet();
+        if case.vel > 0 {
+            cfg.policy.global_velocity_control = VelocityControlSpec {
+                limit_msat: VEL_LIMIT_SAT[(case.vel as usize - 1) % 3] * 1000,
+                interval_type: VelocityControlIntervalType::Daily,
+            };
+            st.class("finite_velocity_limit");
+        }
+        let mut w = World::new(cfg);
         let max_fee_msat: u128 = w.cfg.policy.max_routing_fee_msat as u128;
         let nchan = case.nchan as usize;
         let mut led: Vec<ChanLedger> = vec![];
